@@ -11,6 +11,11 @@ package emit
 //       ind   the right operand is built independently from its own text (fresh allocations,
 //             so pointer-keyed maps get fresh keys).
 //     observation: ab=<t|f>;ba=<t|f>  (both argument orders)
+//   <type>;-;deqm;<opts>;<same|ind>;<value a>;<value b>
+//       the argument-form matrix: every ordered combination (lf, rf) of the forms v (T), p (*T), pp (**T);
+//       all forms of one operand are views of ONE object (v: the interface copy of it, p: its address,
+//       pp: the address of that pointer); same: both operands are views of one object.
+//     observation: <lf>-<rf>=<ab><ba> joined by ';'   ab: call(a as lf, b as rf), ba: call(b as rf, a as lf)
 //   <type>;-;mustcheck;<opts>;<hex path>        observation t|f
 //   <type>;-;eqf;<32|64>;<opts>;<float a>;<float b>   observation t|f
 
@@ -55,7 +60,40 @@ func tf(b bool) string {
 	return "f"
 }
 
+var valueForms = []string{"v", "p", "pp"}
+
+// argForms builds one object from the value text and returns it in the three value forms.
+func argForms(t reflect.Type, value string) map[string]any {
+	v := Build(t, value)
+	pv := reflect.New(t)
+	pv.Elem().Set(v)
+	ppv := reflect.New(pv.Type())
+	ppv.Elem().Set(pv)
+	return map[string]any{"v": pv.Elem().Interface(), "p": pv.Interface(), "pp": ppv.Interface()}
+}
+
 func init() {
+	ops["deqm"] = func(ins inspector.Inspector, t reflect.Type, form string, args []string, value string) string {
+		optText, mode, valueA := args[0], args[1], args[2]
+		as := argForms(t, valueA)
+		bs := as
+		if mode != "same" {
+			bs = argForms(t, value)
+		}
+		call := func(l, r any) bool {
+			if optText == "-" {
+				return ins.DeepEqual(l, r)
+			}
+			return ins.DeepEqualWithOptions(l, r, parseOpts(optText))
+		}
+		var cells []string
+		for _, lf := range valueForms {
+			for _, rf := range valueForms {
+				cells = append(cells, lf+"-"+rf+"="+tf(call(as[lf], bs[rf]))+tf(call(bs[rf], as[lf])))
+			}
+		}
+		return strings.Join(cells, ";")
+	}
 	ops["deq"] = func(ins inspector.Inspector, t reflect.Type, form string, args []string, value string) string {
 		formR, optText, mode, valueA := args[0], args[1], args[2], args[3]
 		la, _ := Arg(t, form, valueA)
